@@ -537,7 +537,15 @@ class SInt(int, metaclass=_Meta):
 
     def __format__(s, spec):
         if is_sym(s):
-            CTX.display += 1
+            from . import strs
+
+            if strs.s_is_sym(spec):
+                spec = strs.pin_str(spec, "format spec")
+            r = strs.sym_int_format(s, str(spec)) if spec else s.__str__()
+            if r is not None:
+                return r
+            # a rendering the shadows cannot follow symbolically: concretise (sound), never drop the dependency
+            pin(s._t == int.__index__(s), "format(int, spec)")
         return int.__format__(int.__index__(s), spec)
 
     def __reduce__(s):
